@@ -1305,6 +1305,11 @@ struct Ctx<'a> {
 	tok_verbatim: usize,
 	tok_src_total: usize,
 	fn_meta: Vec<serde_json::Value>,
+	/// P1: recorded parameter names ("<file>::<qualified fn>" -> names) and the names seen in this run
+	param_names: BTreeMap<String, Vec<String>>,
+	fn_params: Vec<(String, Vec<String>)>,
+	cur_file: String,
+	cur_item: String,
 }
 
 fn count_tokens(s: &str) -> usize {
@@ -1445,6 +1450,37 @@ fn fn_edits(
 			syn::FnArg::Receiver(r) => {
 				for a in &r.attrs {
 					v.visit_attribute(a);
+				}
+			}
+		}
+	}
+	// P1: parameter names. The sidecar text names parameters; when the code renames one (typically `x` -> `_x` after its last use
+	// was removed) the recorded name (contracts/param_names.json, generated from the pinned tree) is restored by alpha-renaming the
+	// parameter and every identifier token of that name in the function, provided the recorded name is not otherwise used there.
+	let actual: Vec<Option<String>> = sig.inputs.iter().filter_map(|i| match i {
+		syn::FnArg::Typed(pt) => Some(match &*pt.pat { syn::Pat::Ident(pi) => Some(pi.ident.to_string()), _ => None }),
+		syn::FnArg::Receiver(_) => None,
+	}).collect();
+	ctx.fn_params.push((qual.to_string(), actual.iter().map(|a| a.clone().unwrap_or_default()).collect()));
+	if let Some(expected) = ctx.param_names.get(&format!("{}::{}::{}", ctx.cur_file, ctx.cur_item, name)).cloned() {
+		if expected.len() == actual.len() {
+			struct Idents { all: Vec<(String, usize, usize)> }
+			impl<'ast> Visit<'ast> for Idents {
+				fn visit_ident(&mut self, i: &'ast proc_macro2::Ident) { let (a, b) = br(i.span()); self.all.push((i.to_string(), a, b)); }
+			}
+			let mut ids = Idents { all: vec![] };
+			ids.visit_signature(sig);
+			ids.visit_block(block);
+			for (exp, act) in expected.iter().zip(actual.iter()) {
+				if let Some(act) = act {
+					if act != exp && !exp.is_empty() && !ids.all.iter().any(|(n, _, _)| n == exp) {
+						for (n, a, b) in ids.all.iter() {
+							if n == act {
+								v.push(*a, *b, vec![Part::Text(exp.clone())], "P1");
+							}
+						}
+						eprintln!("vx: note: parameter `{}` of {} restored to its recorded name `{}`", act, name, exp);
+					}
 				}
 			}
 		}
@@ -1615,7 +1651,8 @@ fn fn_edits(
 	}
 	ctx.dropped_calls.extend(v.dropped_calls.iter().cloned());
 	ctx.out.marks.extend(v.marks.into_iter());
-	ctx.fn_meta.push(json!({"name": name, "vx_qual": qual, "loops": v.loop_ord, "closures": v.closure_ord,
+	let params_now: Vec<String> = ctx.fn_params.iter().rev().find(|(q, _)| q == qual).map(|(_, p)| p.clone()).unwrap_or_default();
+	ctx.fn_meta.push(json!({"name": name, "vx_qual": qual, "params": params_now, "loops": v.loop_ord, "closures": v.closure_ord,
 		"safety_props": cfg.safety_props, "src_range": [whole.0, whole.1], "stub": stub}));
 	edits.extend(es);
 }
@@ -1748,6 +1785,13 @@ fn main() {
 		tok_verbatim: 0,
 		tok_src_total: 0,
 		fn_meta: vec![],
+		param_names: {
+			let p = std::path::Path::new(&unit_path).parent().map(|d| if d.ends_with("inc") { d.parent().unwrap().to_path_buf() } else { d.to_path_buf() }).unwrap_or_default().join("param_names.json");
+			std::fs::read_to_string(&p).ok().and_then(|t| serde_json::from_str(&t).ok()).unwrap_or_default()
+		},
+		fn_params: vec![],
+		cur_file: String::new(),
+		cur_item: String::new(),
 	};
 	if !raw { ctx.out.buf.push_str(&format!(
 		"// GENERATED by /verif/tools/vx from {} (mode={}{}) — do not edit\n#![allow(unused)]\nuse vstd::prelude::*;\nuse std::collections::HashMap;\nuse std::collections::HashSet;\nuse std::marker::PhantomData;\nverus! {{\n",
@@ -1794,6 +1838,8 @@ fn main() {
 	for it in &cfg.item {
 		let (src, file) = sources.get(&it.file).unwrap();
 		let file_idx = ctx.files.iter().position(|f| *f == it.file).unwrap();
+		ctx.cur_file = it.file.clone();
+		ctx.cur_item = it.path.clone();
 		let found = find_item(&file.items, &it.path)
 			.unwrap_or_else(|| die(&format!("item `{}` not found in {}", it.path, it.file)));
 		let out_start = ctx.out.buf.len();
